@@ -134,6 +134,13 @@ pub struct Server {
     pub app_calls: u64,
 }
 
+/// a request that went through intercept_request and is waiting for the application
+pub struct Pending {
+    req: CoapRequest<CEp>,
+    ex: Exchange,
+    pub passed_on: bool,
+}
+
 impl Server {
     pub fn new(budget: usize, expiry: Duration) -> Server {
         Server { handler: BlockHandler::new(BlockHandlerConfig { max_total_message_size: budget, cache_expiry_duration: expiry }), budget, app_calls: 0 }
@@ -151,6 +158,16 @@ impl Server {
     /// before the application's reply goes through intercept_response: other requests that the
     /// server handles while this one is still being worked on.
     pub fn exchange_overlapped(&mut self, datagram: &[u8], ep: u32, app: &mut dyn FnMut(&CoapRequest<CEp>) -> AppReply, between: &mut dyn FnMut(&mut Server)) -> Exchange {
+        let pending = self.take_in(datagram, ep);
+        if pending.passed_on {
+            between(self);
+        }
+        self.answer(pending, app)
+    }
+
+    /// First half of an exchange: the request goes through intercept_request only.  When the
+    /// handler passes it on, it stays pending (a slow or asynchronous application) until `answer`.
+    pub fn take_in(&mut self, datagram: &[u8], ep: u32) -> Pending {
         let packet = Packet::from_bytes(datagram).expect("harness generated an undecodable request");
         let mut req = CoapRequest::from_packet(packet, CEp::new(ep));
         let mut ex = Exchange {
@@ -172,35 +189,46 @@ impl Server {
             Ok(Err(e)) => Step::Err(e),
             Err(p) => Step::Panic(p),
         };
+        let mut passed_on = false;
         match &ex.intercept_request {
-            Step::Panic(_) => return ex,
+            Step::Panic(_) => {}
             Step::Err(e) => ex.error_applied = Some(req.apply_from_error(e.clone())),
             Step::Ok(true) => {}
-            Step::Ok(false) => {
-                between(self);
-                self.app_calls += 1;
-                ex.app_called = true;
-                ex.app_saw_payload = Some(req.message.payload.clone());
-                let reply = app(&req);
-                if let Some(resp) = req.response.as_mut() {
-                    resp.message.header.code = MessageClass::from(reply.code);
-                    for (n, v) in &reply.options {
-                        resp.message.add_option(CoapOption::from(*n), v.clone());
-                    }
-                    resp.message.payload = reply.payload;
+            Step::Ok(false) => passed_on = true,
+        }
+        Pending { req, ex, passed_on }
+    }
+
+    /// Second half: the application answers a pending request and the reply goes through
+    /// intercept_response; for a request the handler answered itself only the reply is rendered.
+    pub fn answer(&mut self, pending: Pending, app: &mut dyn FnMut(&CoapRequest<CEp>) -> AppReply) -> Exchange {
+        let Pending { mut req, mut ex, passed_on } = pending;
+        if let Step::Panic(_) = &ex.intercept_request {
+            return ex;
+        }
+        if passed_on {
+            self.app_calls += 1;
+            ex.app_called = true;
+            ex.app_saw_payload = Some(req.message.payload.clone());
+            let reply = app(&req);
+            if let Some(resp) = req.response.as_mut() {
+                resp.message.header.code = MessageClass::from(reply.code);
+                for (n, v) in &reply.options {
+                    resp.message.add_option(CoapOption::from(*n), v.clone());
                 }
-                let handler = &mut self.handler;
-                ex.intercept_response = Some(match guard(|| handler.intercept_response(&mut req)) {
-                    Ok(Ok(b)) => Step::Ok(b),
-                    Ok(Err(e)) => Step::Err(e),
-                    Err(p) => Step::Panic(p),
-                });
-                if let Some(Step::Err(e)) = &ex.intercept_response {
-                    ex.error_applied = Some(req.apply_from_error(e.clone()));
-                }
-                if let Some(Step::Panic(_)) = &ex.intercept_response {
-                    return ex;
-                }
+                resp.message.payload = reply.payload;
+            }
+            let handler = &mut self.handler;
+            ex.intercept_response = Some(match guard(|| handler.intercept_response(&mut req)) {
+                Ok(Ok(b)) => Step::Ok(b),
+                Ok(Err(e)) => Step::Err(e),
+                Err(p) => Step::Panic(p),
+            });
+            if let Some(Step::Err(e)) = &ex.intercept_response {
+                ex.error_applied = Some(req.apply_from_error(e.clone()));
+            }
+            if let Some(Step::Panic(_)) = &ex.intercept_response {
+                return ex;
             }
         }
         if let Some(resp) = req.response.as_ref() {
